@@ -41,6 +41,7 @@ type Transport struct {
 	InRead    bool
 	RReenter  bool
 	Dead      bool // after a fault every call fails
+	Chunk     int  // when > 0, a Read returns at most this many bytes
 }
 
 func (t *Transport) Feed(b []byte) {
@@ -70,7 +71,11 @@ func (t *Transport) Read(p []byte) (int, error) {
 	if len(t.In) == 0 {
 		return 0, io.EOF
 	}
-	n := copy(p, t.In)
+	lim := len(p)
+	if t.Chunk > 0 && t.Chunk < lim {
+		lim = t.Chunk
+	}
+	n := copy(p[:lim], t.In)
 	t.In = t.In[n:]
 	if len(t.In) == 0 && !t.EOF {
 		t.CanRead = false
